@@ -16,7 +16,7 @@ def abs (r : Replica) : ARep :=
     recs := fun s => r.ntombs.any fun t => t.sig = s }
 
 /-- every member may change every row (the case in which no right is ever refused) -/
-def AllRights (rights : List Bool) : Prop := ∀ a own, can rights a own = true
+def AllRights (rights : Rights) : Prop := ∀ a own date, can rights a own date = true
 
 theorem abs_wf {r : Replica} (h : NoZombie r) : (abs r).WF := by
   intro id hd
@@ -272,16 +272,16 @@ theorem abs_foldTombs (ts : List NTomb) :
 
 end tombs
 
-theorem validNTombs_all {rights : List Bool} (h : AllRights rights) (dst : Replica) (ts : List NTomb) :
+theorem validNTombs_all {rights : Rights} (h : AllRights rights) (dst : Replica) (ts : List NTomb) :
     validNTombs rights dst ts = ts := by
   unfold validNTombs
   rw [List.filter_eq_self]
   intro t _
-  split <;> exact h _ _
+  split <;> exact h _ _ _
 
 /-! ### the rows of the day -/
 
-theorem ingestNode_all {d : Defects} {rights : List Bool} (h : AllRights rights) (r : Replica) (n : Node)
+theorem ingestNode_all {d : Defects} {rights : Rights} (h : AllRights rights) (r : Replica) (n : Node)
     (old : Option Node) :
     (ingestNode d rights r n old).nodes = putNode n r.nodes ∧ (ingestNode d rights r n old).ntombs = r.ntombs := by
   unfold ingestNode
@@ -292,7 +292,7 @@ theorem ingestNode_all {d : Defects} {rights : List Bool} (h : AllRights rights)
 def lastFor (req : List (Node × Option Node)) (id : Nat) : Option Node :=
   ((req.filter fun x => x.1.id = id).getLast?).map (·.1)
 
-theorem abs_foldIngest {d : Defects} {rights : List Bool} (h : AllRights rights) (req : List (Node × Option Node)) :
+theorem abs_foldIngest {d : Defects} {rights : Rights} (h : AllRights rights) (req : List (Node × Option Node)) :
     ∀ (r : Replica),
       (∀ id, (abs (req.foldl (fun r (x : Node × Option Node) => ingestNode d rights r x.1 x.2) r)).ver id =
         match lastFor req id with
@@ -431,7 +431,7 @@ variable {d : Defects} (hI : d.ingestIgnoresTombstones = false) (hR : d.syncDele
 include hI hR hK hE in
 /-- **refinement, one day.** What `synchronise_day` of the intended behaviour does to the rows and node deletion
     records of the puller is the join with the source's rows and records of that `(room, entity, day)`. -/
-theorem syncDay_refines {rights : List Bool} (hA : AllRights rights) {dst src : Replica}
+theorem syncDay_refines {rights : Rights} (hA : AllRights rights) {dst src : Replica}
     (hzd : NoZombie dst) (hzs : NoZombie src) (hns : IdsNodup src)
     (hpk : PkFun (fun x => x ∈ dst.ntombs ∨ x ∈ src.ntombs)) (room ent day : Nat) :
     abs (syncDay d rights dst src room ent day).dst = join (abs dst) (abs (slice src room ent day)) := by
